@@ -515,8 +515,20 @@ func Capture(testFn func(*testing.T)) (c Captured) {
 // a failing execution writes the same library-free record as a rapid failure
 // (test is the name of the Test function, which is what replays the record).
 func Fuzz(f *testing.F, test string, c Captured) {
-	f.Add([]byte{})
-	f.Add([]byte{0x01, 0x23, 0x45, 0x67, 0x89, 0xab, 0xcd, 0xef, 0x10, 0x32, 0x54, 0x76, 0x98, 0xba, 0xdc, 0xfe})
+	// Seed corpus: rapid reads its random words from the input and gives up on a case when the input is exhausted, so
+	// the starting inputs have to be long enough for whole cases (a DKG scenario makes several hundred draws).  The
+	// contents are a fixed xorshift stream: the corpus is the same on every run.
+	x := uint64(0x9e3779b97f4a7c15)
+	for _, n := range []int{64, 512, 2048, 2048, 8192, 8192, 32768} {
+		b := make([]byte, n)
+		for i := range b {
+			x ^= x << 13
+			x ^= x >> 7
+			x ^= x << 17
+			b[i] = byte(x >> 32)
+		}
+		f.Add(b)
+	}
 	f.Fuzz(rapid.MakeFuzz(func(rt *rapid.T) { runRapid(rt, c.ID, test, c.Prop) }))
 }
 
